@@ -74,7 +74,7 @@ mod vx_proofs {
         }
     }
 }
-''' % (prog.name, vspec.rust_inst(prog), L, spec_parse.FOLD_EQ, hits_rust(prog), L + 3)
+''' % (prog.name, vspec.rust_inst(prog), L, spec_parse.FOLD_EQ, hits_rust(prog), max(L + 3, 10))
     def kani_harnesses(self, ctx, prog):
         if 'EnumString' in prog.derives and ctx.tier == 'thorough':
             return [('rt_default_captures_and_prints_input', 'roundtrip')]
